@@ -260,17 +260,28 @@ pub fn run_main(
                     break;
                 }
                 let h = &instances[i];
-                let cfg = Config { budget_paths: budget, panic_is_violation: Some("no_panic".into()) };
+                let cfg = Config { pin: None, budget_paths: budget, panic_is_violation: Some("no_panic".into()) };
                 let st = h.run(&cfg);
                 let mut reps = vec![];
                 for v in &st.violations {
                     let model: Model = v.model.iter().cloned().collect();
                     let r = std::panic::catch_unwind(std::panic::AssertUnwindSafe(|| h.replay(&v.check, &model)));
-                    let (reproduced, class, msg) = match r {
+                    let (mut reproduced, mut class, mut msg) = match r {
                         Ok(Replay::Reproduced(c, d)) => (true, c, d),
                         Ok(Replay::NotReproduced(d)) => (false, String::new(), d),
                         Err(p) => (false, String::new(), format!("replay panicked: {}", crate::engine::payload_msg(&p))),
                     };
+                    if !reproduced {
+                        // replay of last resort: re-execute the instance natively with every input pinned to the model
+                        // (same graph double, hence the same iteration order); one path; obligations are ground
+                        let pcfg = Config { pin: Some(v.model.clone()), budget_paths: 64, panic_is_violation: Some("no_panic".into()) };
+                        let ps = h.run(&pcfg);
+                        if ps.inconclusive.is_none() && ps.violation_count > 0 && ps.paths <= 2 {
+                            reproduced = true;
+                            class = format!("{}@pinned-double", ps.violations[0].check);
+                            msg = format!("reproduced only on the pinned graph double (behaviour depends on the host's iteration order): {} {} | real-host replay said: {}", ps.violations[0].check, ps.violations[0].detail, msg);
+                        }
+                    }
                     reps.push(json!({
                         "check": v.check, "detail": v.detail, "model": model,
                         "reproduced": reproduced, "class": class, "replay_msg": msg, "path_id": v.path_id,
